@@ -22,6 +22,7 @@ RULE = (
     "distinct = distinct (kind,n,k,index/budget)."
     ' Also: a call interrupted (KeyboardInterrupt) at every one of its lines in turn, each time on a private copy of the module, followed by a re-check of the enumeration; kernel generators in half the cases repeat or extremise words of their stream.'
     ' Sampled indices are handed over as int, int64, uint64, int32 or intp; block runs around the largest representable index for n with C(n,k) near 2**31, 2**32, 2**53, 2**63, 2**64.'
+    ' Also: the last 320 indices for n = 2**31 .. 2**64.'
 )
 ASSUMPTIONS = [
     "itertools.combinations and math.comb are the reference",
@@ -63,6 +64,10 @@ def exhaustive(tier):
                 hi_ = mid - 1
         yield {"kind": "blocks", "n": n, "k": k, "m0": k, "count": 6, "itype": itype}
         yield {"kind": "blocks", "n": n, "k": k, "m0": max(k, m_hi - 5), "count": 6, "itype": itype}
+    # the top of the index range for n far beyond any array size (2**53 and more items: where floating point stops resolving
+    # integers): the last few hundred indices, whose tuples sit next to each other at the top (cheap for a top-down walk)
+    for k_, n_ in [(2, 2**53 + 5), (2, 2**60 + 12345), (3, 2**53 + 3), (2, 2**31 + 1), (2, 94906267)] + ([(3, 2**60 + 7), (4, 2**55 + 1), (2, 2**64 + 3), (2, 2**26 + 3), (3, 2**21 + 1)] if tier != "quick" else []):
+        yield {"kind": "top", "n": n_, "k": k_, "count": 320}
     # a call interrupted (Ctrl-C, a timeout signal) at each of its lines in turn, in a process that then carries on
     for n_, k_, i_ in [(30, 3, 1234), (9, 4, 70)] + ([(200, 3, 100000), (40, 2, 500), (25, 4, 9000)] if tier != "quick" else []):
         yield {"kind": "interrupted", "n": n_, "k": k_, "i": i_}
@@ -445,6 +450,18 @@ def check_case(case):
                     require([tuple(int(x) for x in f_(j, n2, k2)) for j in range(total)] == want, "unrank.after_interrupted_call", lambda: "after an interrupted call (line event %d) the enumeration for n=%d k=%d is not the ascending list of descending tuples" % (point, n2, k2))
         require(points >= 3, "harness", "no interruption point inside the call")
         return {"nontrivial": True, "labels": ["interrupted-call"], "counts": {"interruption_points": points}}
+    if kind == "top":
+        n, k = case["n"], case["k"]
+        total = math.comb(n, k)
+        prev = None
+        for j in range(case["count"]):
+            i = total - 1 - j
+            t = tuple(int(x) for x in unrank(i, n, k))
+            require(len(t) == k and all(0 <= x < n for x in t) and all(a > b for a, b in zip(t, t[1:])) and _rank(t) == i, "unrank.top_of_range", lambda: "n=%d k=%d: index C(n,k)-1-%d maps to %r, whose rank is %s" % (n, k, j, t, _rank(t) if all(a > b for a, b in zip(t, t[1:])) else "undefined"))
+            if prev is not None:
+                require(prev == _successor(t, n), "unrank.top_of_range.successor", lambda: "n=%d k=%d: indices C(n,k)-1-%d and the next map to %r and %r" % (n, k, j, t, prev))
+            prev = t
+        return {"nontrivial": True, "labels": ["top-of-range", "n>=2^%d" % (n.bit_length() - 1)]}
     if kind == "blocks":
         n, k = case["n"], case["k"]
         for m in range(case["m0"], case["m0"] + case["count"]):
